@@ -111,7 +111,11 @@ func piecesGen(args []string) {
 		var sts []any
 		sts = append(sts, ast.Var("x", ast.Int(r.Intn(5))), ast.Var("y", ast.List(ast.Int(1))))
 		pool := func() N {
-			switch r.Intn(9) {
+			switch r.Intn(11) {
+			case 9:
+				return ast.ExprStmt(ast.Call(ast.Id("inc2")))
+			case 10:
+				return ast.ExprStmt(ast.Call(ast.Call(ast.Id("mkinc"))))
 			case 0:
 				return N{"k": "assign", "n": "x", "op": "=", "e": ast.Bin("+", ast.Id("x"), ast.Int(1+r.Intn(5)))}
 			case 1:
@@ -127,7 +131,7 @@ func piecesGen(args []string) {
 			case 6:
 				return N{"k": "assign", "n": "y", "op": "=", "e": ast.List(ast.Id("x"), ast.Int(7))}
 			case 7:
-				return ast.Print(ast.Id("x"), ast.Call(ast.Id("getx")), ast.Call(ast.Id("leny")))
+				return ast.Print(ast.Id("x"), ast.Call(ast.Id("getx")), ast.Call(ast.Id("leny")), ast.Call(ast.Id("inc2")))
 			default:
 				return ast.ExprStmt(ast.List(ast.Id("x"), ast.Call(ast.Id("getx")), ast.Id("y")))
 			}
@@ -139,6 +143,9 @@ func piecesGen(args []string) {
 			fn("getx", ast.ExprStmt(ast.Id("x"))),
 			fn("incx", N{"k": "assign", "n": "x", "op": "+=", "e": ast.Int(1)}, ast.ExprStmt(ast.Id("x"))),
 			fn("leny", ast.ExprStmt(ast.Call(ast.Id("len"), ast.Id("y")))),
+			// a function literal nested in a function (depth 2) that reads and writes the global
+			fn("mkinc", N{"k": "return", "has": true, "e": N{"k": "func", "name": "", "params": []any{},
+				"body": []any{N{"k": "assign", "n": "x", "op": "+=", "e": ast.Int(100)}, ast.ExprStmt(ast.Id("x"))}}}),
 		}
 		// interleave definitions with uses that come after all three are defined
 		for _, d := range defs {
@@ -147,6 +154,7 @@ func piecesGen(args []string) {
 				sts = append(sts, N{"k": "assign", "n": "x", "op": "=", "e": ast.Bin("+", ast.Id("x"), ast.Int(1))})
 			}
 		}
+		sts = append(sts, ast.Var("inc2", ast.Call(ast.Id("mkinc"))))
 		for k, m := 0, 3+r.Intn(6); k < m; k++ {
 			sts = append(sts, pool())
 		}
@@ -189,6 +197,20 @@ func rejectedPiece(r *rand.Rand, known []string) N {
 		"fq := func() {\nprint(\"rejected\")\nreturn undefined_name_q\n}",
 		"if true {\nprint(\"rejected\")\nbreak\n}",
 		"func fq2() {\nfor {\nundefined_name_q\n}\n}",
+		// the compiler fails in the middle of a construct that keeps state while it is being compiled
+		"print(\"rejected\") | func(xs) {\nreturn undefined_name_q\n}",
+		"[1, 2] | len | func(n) {\nreturn n + undefined_name_q\n}",
+		"switch 1 {\ncase 1:\nprint(\"rejected\")\nundefined_name_q\n}",
+		"for i := 0; i < 2; i++ {\nprint(\"rejected\")\nfunc() {\nbreak\n}()\n}",
+		"func fq3(a=undefined_name_q) {\nreturn a\n}",
+		"for _, qx := range [1, 2] {\nprint(\"rejected\")\nundefined_name_q\n}",
+		"undefined_name_q = 1",
+		"const cq = 1\nprint(\"rejected\")\ncq = 2",
+		"go func() {\nundefined_name_q\n}()",
+		"x9q := if true {\nundefined_name_q\n} else {\n2\n}",
+		"func fq4() {\ndefer func() {\nundefined_name_q\n}()\n}",
+		"print(\"rejected\", [1, 2, undefined_name_q])",
+		"print(\"rejected\", {\"a\": 1, \"b\": undefined_name_q})",
 	}
 	if len(known) > 0 {
 		k := known[r.Intn(len(known))]
